@@ -184,12 +184,23 @@ def run_libpair(case) -> dict:
 
     _, seed, fields, fl = case[:4]
     grp = 1 if fl == "thread" else None  # "thread": the two protects are made by caller threads of one process at the same time
+    two_sids = seed % 4 == 2  # B belongs to ANOTHER principal (other security descriptor, hence another key chain) than A
+    if {"enc_content", "gcm_nonce", "enc_cek", "key_identifier"} <= set(fields) and not two_sids:
+        # with every key-relevant field taken from B and the same protection descriptor, the "altered A" simply IS record B (its
+        # original plaintext is B's): not an alteration in the sense of the property; only meaningful when the descriptors differ
+        return {"viol": None, "digest": "same-record", "key": None, "fired": {}, "probes": {"noop_fault": 1}, "vtime_ns": 0}
+    sid_b = offline.SID_B if two_sids else offline.SID_A
     ops = [{"op": "load_key", "rk": 0},
            {"op": "protect", "fl": fl, "group": grp, "sid": offline.SID_A, "rk": 0, "net": "offline", "data": 24},
-           {"op": "protect", "fl": fl, "group": grp, "sid": offline.SID_A, "rk": 0, "net": "offline", "data": 24},
+           {"op": "protect", "fl": fl, "group": grp, "sid": sid_b, "rk": 0, "net": "offline", "data": 24},
            {"op": "unprotect", "fl": "sync" if fl == "thread" else fl, "net": "offline", "blob": {"from_op": 1, "graft": {"from_op": 2, "fields": list(fields)}}},
            {"op": "unprotect", "fl": "sync" if fl == "thread" else fl, "net": "offline", "blob": {"from_op": 1}}]
-    b_first = seed % 3 == 1
+    if two_sids and fl == "thread":
+        # the altered record and B itself are opened by two caller threads at the same time (the two protects one after the other)
+        ops[1], ops[2] = dict(ops[1], fl="sync", group=None), dict(ops[2], fl="sync", group=None)
+        ops[3] = dict(ops[3], fl="thread", group=2)
+        ops.insert(4, {"op": "unprotect", "fl": "thread", "group": 2, "net": "offline", "blob": {"from_op": 2}})
+    b_first = seed % 3 == 1 or (two_sids and fl != "thread")
     if b_first:
         # honest earlier use of the same cache: B itself (and, every other time, A too) was opened before the altered record arrives
         ops.insert(3, {"op": "unprotect", "fl": "sync" if fl == "thread" else fl, "net": "offline", "blob": {"from_op": 2}})
@@ -200,11 +211,13 @@ def run_libpair(case) -> dict:
     if fl == "thread":
         plan["threads"] = case[4]
     tr = P.execute_plan(plan)
-    a, b_, crossed, plain = tr.ops[1], tr.ops[2], tr.ops[-2], tr.ops[-1]
+    a, b_, plain = tr.ops[1], tr.ops[2], tr.ops[-1]
+    crossed = next(ot for ot in tr.ops if ot.op["op"] == "unprotect" and ot.op["blob"].get("graft"))
     viol = None
-    probes = {"library_made_pairs": 1, "library_made_pairs_threads": int(fl == "thread"), "library_made_pairs_after_honest_use": int(b_first)}
+    probes = {"library_made_pairs": 1, "library_made_pairs_two_principals": int(two_sids), "library_made_pairs_threads": int(fl == "thread"), "library_made_pairs_after_honest_use": int(b_first)}
     if a.outcome.kind != "ok" or b_.outcome.kind != "ok" or plain.outcome.kind != "ok" or plain.outcome.value != a.plaintext:
-        raise common.HarnessError(f"library-made pair does not round-trip: {a.outcome.brief()} {b_.outcome.brief()} {plain.outcome.brief()}")
+        # the library cannot open its own untouched record here: round trips are C01's subject, there is nothing for C04 to judge
+        return {"viol": None, "digest": tr.world.digest(), "key": None, "fired": {}, "probes": {"library_made_pair_does_not_round_trip": 1}, "vtime_ns": 0}
     out = crossed.outcome
     if out.kind == "ok" and out.value != a.plaintext:
         whose = "the plaintext of blob B" if out.value == b_.plaintext else "other bytes"
@@ -299,12 +312,12 @@ class C04(common.Check):
             "located with ref.cms' offset map; algorithm substitution (content-encryption OID rewritten to every AES mode of the NIST arc x "
             "parameter shapes x content cut to blocks, all 256 last IV bytes for the CBC OIDs); flips/truncations of blobs with > 1 MiB content; pairs of overlapping async unprotects (valid blob A, modified blob B' carrying A's key "
             "identifier / nonce / wrapped CEK / content) on one simulated loop, online and offline; the same pairs from caller threads of one process (deterministic thread scheduler) and as histories on one shared "
-            "cache (B' rejected, A, B' again, A, B'); records rewritten at rest into public-key records whose DH public value (0, 1, p-1, or a group of the writer's choosing, also under elliptic-curve root keys) makes the shared secret predictable; records rewritten by a keyless party (other key position, own CEK wrapped under the KEK that follows if the L2 / L1 / L0 / root key at some level of the chain were empty or zeros, own content) presented to a cache holding the root key, fresh or after honest use of the same cache; records whose GCM parameters announce a 0..15-octet tag with a content carrying a tag of that length; pairs of blobs protected by the library in one process with fields of one grafted onto the other (in a third of them after B, or A and B, were opened on the same cache); every flip / truncation of blobs whose plaintext is itself a blob (a secret protected twice). Non-trivial = stored bytes differ from the base blob; distinct = distinct (blob, faults).")
+            "cache (B' rejected, A, B' again, A, B'); records rewritten at rest into public-key records whose DH public value (0, 1, p-1, or a group of the writer's choosing, also under elliptic-curve root keys) makes the shared secret predictable; records rewritten by a keyless party (other key position, own CEK wrapped under the KEK that follows if the L2 / L1 / L0 / root key at some level of the chain were empty or zeros, own content) presented to a cache holding the root key, fresh or after honest use of the same cache; records whose GCM parameters announce a 0..15-octet tag with a content carrying a tag of that length; pairs of blobs protected by the library in one process with fields of one grafted onto the other (in a third of them after B, or A and B, were opened on the same cache; in a quarter B belongs to another principal and is opened first or, by a second caller thread, at the same time); every flip / truncation of blobs whose plaintext is itself a blob (a secret protected twice). Non-trivial = stored bytes differ from the base blob; distinct = distinct (blob, faults).")
     components = {"client": "real (ncrypt_unprotect_secret, DPAPINGBlob.unpack, KeyCache, key derivation, AES-KW/GCM via cryptography)",
                   "blob store": "simulated (fault injection at rest)", "network": "simulated, no DC reachable (attempts observed at the seam)",
                   "base blobs": "reference encoder (ref.cms) and the library's own protect"}
     assumptions = ["AES-KW and AES-GCM from the cryptography package are trusted primitives"]
-    required_fired = ("rot", "tear", "algsub", "big_content", "concurrent_pairs", "outcome_raise", "outcome_same", "shared_cache_histories", "nested_plaintext", "thread_pairs", "thread_overlap", "library_made_pairs", "library_made_pairs_threads", "forged_records", "keyless_rewrites", "keyless_rewrites_after_honest_use", "short_tag_records", "library_made_pairs_after_honest_use")
+    required_fired = ("rot", "tear", "algsub", "big_content", "concurrent_pairs", "outcome_raise", "outcome_same", "shared_cache_histories", "nested_plaintext", "thread_pairs", "thread_overlap", "library_made_pairs", "library_made_pairs_threads", "forged_records", "keyless_rewrites", "keyless_rewrites_after_honest_use", "short_tag_records", "library_made_pairs_after_honest_use", "library_made_pairs_two_principals")
 
     def exhaustive(self, tier):
         return tier == "thorough"
@@ -409,7 +422,7 @@ class C04(common.Check):
                 for n in (0, 1, 4, 8, 12, 13, 15):
                     out.append(["shorttag", bi, n])
         # blobs protected by the library itself in one process, fields of one grafted onto the other
-        GRAFTS = (["enc_content"], ["enc_content", "gcm_nonce"], ["gcm_nonce"], ["enc_cek"], ["enc_cek", "key_identifier"], ["key_identifier"], ["kid.key_info"],
+        GRAFTS = (["enc_content"], ["enc_content", "gcm_nonce"], ["enc_content", "gcm_nonce", "enc_cek", "key_identifier"], ["gcm_nonce"], ["enc_cek"], ["enc_cek", "key_identifier"], ["key_identifier"], ["kid.key_info"],
                   ["enc_content", "gcm_nonce", "enc_cek"], ["enc_content", "gcm_nonce", "kid.key_info"])
         for i in range(len(GRAFTS) * (8 if tier == "quick" else 200)):
             out.append(["libpair", i, GRAFTS[i % len(GRAFTS)], ("sync", "async")[(i // len(GRAFTS)) % 2]])
@@ -418,6 +431,10 @@ class C04(common.Check):
         for i in range(len(GRAFTS) * (14 if tier == "quick" else 300)):
             out.append(["libpair", 5000 + i, GRAFTS[i % len(GRAFTS)], "thread",
                         {"mode": "marks", "q": (0.7, 0.9, 1.0)[i % 3], "p": (0.0, 0.02)[(i // 3) % 2]} if i % 2 else {"mode": "prob", "p": (0.02, 0.1, 0.4)[(i // 2) % 3]}])
+        # ... two principals: the altered record (A's descriptor, everything key-relevant from B) and B itself opened by two threads at once
+        for i in range(320 if tier == "quick" else 8000):
+            out.append(["libpair", 6002 + 4 * i, ["enc_content", "gcm_nonce", "enc_cek", "key_identifier"], "thread",
+                        {"mode": "marks", "q": (0.3, 0.5, 0.7, 0.9, 1.0)[i % 5], "p": (0.0, 0.02, 0.1)[(i // 5) % 3]} if i % 4 else {"mode": "prob", "p": (0.02, 0.1, 0.4)[(i // 4) % 3]}])
         for i in range(480 if tier == "quick" else 12000):
             out.append(["tconc", i, ("online", "offline", "offline")[i % 3], ("tagflip", "content", "key_info", "tagflip", "content", "enc_cek", "flip", "key_identifier")[(i // 3) % 8],
                         {"mode": "marks", "q": (0.3, 0.5, 0.7, 0.9, 1.0)[(i // 2) % 5], "p": (0.0, 0.01)[(i // 10) % 2]} if i % 2 else ({"mode": "prob", "p": (0.05, 0.3, 0.5)[(i // 4) % 3]} if i % 4 else threadpure.policy_for(i // 4))])
